@@ -29,6 +29,7 @@ class FieldSpec:
     ignore: Dict[Tuple[str, str], str] = field(default_factory=dict)  # (K, field) -> reason ; K may be "*"
     props: Tuple[str, ...] = ()
     also_funcs: Tuple[str, ...] = ()  # helper functions whose reads of the subject count (called with the subject)
+    only_kinds: Optional[Tuple[str, ...]] = None  # restrict to fields of these ADT types (child fields)
     chain_subject: Optional[str] = None  # dispatch is on this variable ...
     chain_adt: Optional[str] = None  # ... over this ADT; fields are those of the same-named ctor in `adt`
 
@@ -60,6 +61,11 @@ SPECS: List[FieldSpec] = [
         ("Free", "*"): "Free does not exist before the backend",
     }, props=("C01",)),
     FieldSpec("CMPFIELDS", L, "LoopIR_Compare.match_e", ("e1", "e2"), "LoopIR", "expr", props=("C01",)),
+    # effect extraction: every child of every node contributes its effects
+    FieldSpec("EFFFIELDS", "src/exo/rewrite/new_eff.py", "expr_effs", ("e",), "LoopIR", "expr", only_kinds=("expr", "w_access"), props=("C01", "C09")),
+    FieldSpec("EFFFIELDS", "src/exo/rewrite/new_eff.py", "stmts_effs", ("s",), "LoopIR", "stmt", only_kinds=("expr", "stmt"), ignore={
+        ("Free", "*"): "Free does not exist before the backend",
+    }, props=("C01", "C09")),
     # unification
     FieldSpec("UNIFYFIELDS", U, "Unification.unify_stmts", ("ps", "bs"), "LoopIR", "stmt", ignore={
         ("For", "loop_mode"): "annotation only",
@@ -155,6 +161,8 @@ def rule_fields(ctx, prop: str) -> List[RuleResult]:
                         continue  # e.g. WindowStmt / WindowExpr have no pattern constructor
                     res.instances += 1
                     flds = [x for x in adtmod.ctor(K).fields if x.name != "srcinfo" and (K, x.name) not in sp.ignore and (K, "*") not in sp.ignore]
+                    if sp.only_kinds is not None:
+                        flds = [x for x in flds if x.type in sp.only_kinds]
                     if flds:
                         res.nontrivial += 1
                     for subj in sp.subjects:
@@ -183,7 +191,7 @@ def rule_fields(ctx, prop: str) -> List[RuleResult]:
                                     Finding(
                                         sp.rule, sp.file, case.lineno, sp.qualname, f"{K}.{fld.name}@{subj}",
                                         f"case {sp.adt}.{K}: field `{fld.name}` is never read from `{subj}` "
-                                        + ("— the printer drops it" if sp.rule == "PRINTFIELDS" else "— nodes differing only in it are treated as equal"),
+                                        + ("— the printer drops it" if sp.rule == "PRINTFIELDS" else ("— accesses made below it are invisible to every commutativity / bounds / race check" if sp.rule == "EFFFIELDS" else "— nodes differing only in it are treated as equal")),
                                     )
                                 )
                     res.sample(f"{sp.qualname} case {K}: fields {[x.name for x in flds]} all read from {sp.subjects}")
